@@ -82,7 +82,7 @@ class Result:
         self.pruned = 0
 
 
-def explore(spec, max_depth=None, max_states=None, time_cap=None, workers=None, seed=0):
+def explore(spec, max_depth=None, max_states=None, time_cap=None, workers=None, seed=0, bail_states=3000):
     global _SPEC
     _SPEC = spec
     spec.setup()
@@ -133,6 +133,9 @@ def explore(spec, max_depth=None, max_states=None, time_cap=None, workers=None, 
             frontier = sorted(nxt, key=lambda s: s[3])
             if max_states is not None and res.states >= max_states and frontier:
                 res.cap = "state cap %d (frontier of %d states not expanded)" % (max_states, len(frontier))
+                break
+            if res.violations and res.states >= bail_states and frontier:
+                res.cap = "stopped after violations were found and %d states were reached" % res.states
                 break
             if time_cap and time.time() - t0 > time_cap and frontier:
                 res.cap = "time cap %ds at depth %d (frontier of %d states not expanded)" % (
